@@ -17,6 +17,7 @@ PROPS = {
     "C01": {
         "title": "Inbound packets are reassembled exactly under every transport chunking",
         "kani": [("k1_frames", None)],
+        "native": ["n1_packet"],
         "verus": [(U1, ["U1.next"]), (U5, ["C02.run.log", "U5.run"])],
     },
     "C02": {
@@ -37,6 +38,7 @@ PROPS = {
     "C05": {
         "title": "Response sequence ids continue the request's and wrap modulo 256",
         "kani": [("k1_frames", None)],
+        "native": ["n1_packet"],
         "verus": [(U1, ["C04.end", "C04.write", "U1.end"]), (U5, [])],
     },
     "C06": {
@@ -99,6 +101,11 @@ PROPS = {
         "kani": [("k2_commands", ["k2_parse_stmt"])],
         "verus": [(U4, ["U4.", "C08.next"]), (U5, ["C10.", "C02.run.log", "U5.run"])],
     },
+    "C18": {
+        "title": "TLS upgrade loses no bytes and leaks no plaintext",
+        "kani": [("k7_tls", None)],
+        "verus": [(U1, ["U1.tls"]), (U5, ["C12.init", "C11.auth"])],
+    },
     "C19": {
         "title": "Connection end and transport faults are reported, never masked",
         "kani": [],
@@ -107,6 +114,7 @@ PROPS = {
     "C20": {
         "title": "No client byte sequence can crash or wedge a connection",
         "kani": [("k1_frames", None), ("k2_commands", None), ("k3_decode", ["k3_parse_fixed", "k3_parse_bytes", "k3_parse_temporal"])],
+        "native": ["n1_packet"],
         "verus": [(U1, ["U1.next", "C01.next"]), (U4S, ["U4."]), (U5, ["U5.", "C12.run", "C12.init"])],
     },
 }
